@@ -103,6 +103,7 @@ def main(argv=None):
     notes = []
     hashes = set()
     nthashes = set()
+    reach_hits = set()
     for i, p, out, log in procs:
         if not os.path.exists(out):
             # a shard that died in the harness still reports what its monitors had already seen (it stays in `dead`)
@@ -130,6 +131,9 @@ def main(argv=None):
                 notes.append(n)
         hashes.update(_read_hashes(out + ".hashes"))
         nthashes.update(_read_hashes(out + ".nthashes"))
+        if os.path.exists(out + ".reach"):
+            with open(out + ".reach") as f:
+                reach_hits.update(tuple(x) for x in json.load(f))
 
     known = load_known()
     new_viol = []
@@ -180,6 +184,20 @@ def main(argv=None):
         "notes": notes,
         "repo": REPO,
     }
+    if reach_hits:
+        # VERIF_COVER=1: which lines of the property's anchored files the workload executed (reach, not a verdict)
+        from . import cover
+
+        anchors = []
+        try:
+            with open(os.path.join(HOME, "properties.jsonl")) as f:
+                for line in f:
+                    d = json.loads(line)
+                    if d["id"] == prop:
+                        anchors = [a for a in d["anchors"]["files"] if a.endswith(".py")]
+        except Exception:
+            pass
+        coverage["reach"] = cover.report(REPO, reach_hits, anchors)
     if exhaustive:
         coverage["exhaustive_spaces"] = exhaustive
         coverage["exhaustive"] = all(exhaustive.values())
